@@ -469,9 +469,22 @@ pub fn enumerate_loose(prog: &Program, weak_sc: bool, strong_rs: bool, op_fences
                             break 'thismo;
                         }
                         if op_fences {
-                            // the order RC11 imposes on SeqCst events must be compatible with one
-                            // global execution order that also extends po and rf
-                            let exec_order = union2(&union2(&base, &rfrel), &psc);
+                            // What loom's single execution order imposes on SeqCst events:
+                            //  * SeqCst fences are ordered by execution order and each one inherits what the
+                            //    earlier ones knew: psc restricted to fences must be compatible with po ∪ rf;
+                            //  * a SeqCst load that reads a SeqCst store never reads one that is older (in mo)
+                            //    than a SeqCst store executed before it: the load must execute before every
+                            //    mo-later SeqCst store.
+                            let psc_f: Rel =
+                                (0..n).map(|i| if is_sc_fence(i) { (hb[i] | heh[i]) & fsc_mask & !(1 << i) } else { 0 }).collect();
+                            let mut sc_rb: Rel = vec![0; n];
+                            for &r in &readers {
+                                if kind[r] == K::R && is_sc_access(r) && evs[rf_src[r]].th >= 0 && is_sc_access(rf_src[r]) {
+                                    let later_sc: u32 = (0..n).filter(|&w| is_write(w) && is_sc_access(w)).fold(0, |m, w| m | (1 << w));
+                                    sc_rb[r] = rb[r] & later_sc;
+                                }
+                            }
+                            let exec_order = union2(&union2(&union2(&base, &rfrel), &psc_f), &sc_rb);
                             if !acyclic(&exec_order) {
                                 break 'thismo;
                             }
